@@ -108,6 +108,7 @@ func vWriteCapture(dir string, w *vWorld, k int) (string, error) {
 }
 
 var vMarkRe = regexp.MustCompile(`MARK(\d+);`)
+var vIntRe = regexp.MustCompile(`\d+`)
 
 func vVersionOf(payload []byte) []int {
 	seen := map[int]bool{}
@@ -162,6 +163,10 @@ func (d vDef) query() string {
 		for _, i := range d.S {
 			parts = append(parts, strconv.Itoa(i))
 		}
+		if d.K == "M" && d.T == "twice" {
+			// a mark definition that is not a plain list: the same list written twice (a conjunction), same set of streams
+			return "id:" + strings.Join(parts, ",") + " id:" + strings.Join(parts, ",")
+		}
 		return "id:" + strings.Join(parts, ",")
 	case "R":
 		return vTagFilter(d.T, false)
@@ -180,6 +185,17 @@ func (d vDef) query() string {
 func vDefOfQuery(name, q string, known map[string]vDef) vDef {
 	if strings.HasPrefix(name, "mark/") || strings.HasPrefix(name, "generated/") {
 		ids := []int{}
+		if strings.Contains(q, " id:") {
+			// not a plain list (written twice, possibly extended by mark_add): the ids in the order they first appear
+			seen := map[int]bool{}
+			for _, m := range vIntRe.FindAllString(q, -1) {
+				if i, err := strconv.Atoi(m); err == nil && !seen[i] {
+					seen[i] = true
+					ids = append(ids, i)
+				}
+			}
+			return vDef{K: "M", S: ids, T: "twice"}
+		}
 		if strings.HasPrefix(q, "id:") && q != "id:-1" {
 			// keep order and repetitions: the manager compares definitions as text
 			for _, p := range strings.Split(q[3:], ",") {
